@@ -942,4 +942,196 @@ theorem overlapAny_of_den : ∀ (ls : List Loc) (lo hi : Int), wfList ls = true 
       · exact Or.inl (overlap_of_den l lo hi hw.1 p hp h3 h4)
       · exact Or.inr (overlapAny_of_den ls lo hi hw.2 p hp h3 h4)
 end
+/-! ## `gts delete -e`: which features are dropped, in terms of the INPUT -/
+
+theorem rangeWithin_mem (s e lo hi q : Int) (hse : s ≤ e) (hb : lo ≤ hi)
+    (h : rangeWithin s e lo hi = true) (h1 : s ≤ q) (h2 : q < e) : lo ≤ q ∧ q < hi := by
+  unfold rangeWithin at h
+  rw [if_neg (by omega), if_neg (by omega)] at h
+  simp only [Bool.and_eq_true, decide_eq_true_eq] at h
+  omega
+
+mutual
+/-- a location within `[lo, hi)` (`LocationWithin`) denotes only residues of `[lo, hi)` -/
+theorem den_of_within : ∀ (l : Loc) (lo hi : Int), wf l = true → lo ≤ hi → within l lo hi = true →
+    ∀ p ∈ Loc.den l, lo ≤ p.1 ∧ p.1 < hi
+  | between _, _, _, _, _, _, p, hp => by simp [Loc.den] at hp
+  | point q, lo, hi, _, hb, h, p, hp => by
+      simp only [Loc.den, List.mem_singleton] at hp
+      subst hp
+      exact rangeWithin_mem q (q + 1) lo hi q (by omega) hb h (by omega) (by omega)
+  | ranged s e _ _, lo, hi, hw, hb, h, p, hp => by
+      have hse : s < e := by simpa [wf] using hw
+      simp only [Loc.den, fwd, List.mem_map] at hp
+      obtain ⟨x, hx, rfl⟩ := hp
+      have := mem_irange.mp hx
+      exact rangeWithin_mem s e lo hi x (by omega) hb h (by omega) (by omega)
+  | ambiguous s e, lo, hi, hw, hb, h, p, hp => by
+      have hse : s < e := by simpa [wf] using hw
+      simp only [Loc.den, fwd, List.mem_map] at hp
+      obtain ⟨x, hx, rfl⟩ := hp
+      have := mem_irange.mp hx
+      exact rangeWithin_mem s e lo hi x (by omega) hb h (by omega) (by omega)
+  | joined ls, lo, hi, hw, hb, h, p, hp =>
+      denList_of_withinAll ls lo hi (by simpa [wf] using hw) hb (by simpa [Loc.within] using h) p
+        (by simpa [Loc.den] using hp)
+  | ordered ls, lo, hi, hw, hb, h, p, hp =>
+      denList_of_withinAll ls lo hi (by simpa [wf] using hw) hb (by simpa [Loc.within] using h) p
+        (by simpa [Loc.den] using hp)
+  | compl l, lo, hi, hw, hb, h, p, hp => by
+      simp only [Loc.den, flipDen, List.mem_map, List.mem_reverse] at hp
+      obtain ⟨q, hq, rfl⟩ := hp
+      exact den_of_within l lo hi (by simpa [wf] using hw) hb (by simpa [Loc.within] using h) q hq
+theorem denList_of_withinAll : ∀ (ls : List Loc) (lo hi : Int), wfList ls = true → lo ≤ hi →
+    withinAll ls lo hi = true → ∀ p ∈ Loc.denList ls, lo ≤ p.1 ∧ p.1 < hi
+  | [], _, _, _, _, _, p, hp => by simp [Loc.denList] at hp
+  | l :: ls, lo, hi, hw, hb, h, p, hp => by
+      simp only [wfList_cons, Bool.and_eq_true] at hw
+      simp only [withinAll, Bool.and_eq_true] at h
+      simp only [denList_cons, List.mem_append] at hp
+      rcases hp with hp | hp
+      · exact den_of_within l lo hi hw.1 hb h.1 p hp
+      · exact denList_of_withinAll ls lo hi hw.2 hb h.2 p hp
+end
+
+/-- **`gts delete -e` never drops a feature that keeps a residue**: if a feature fails
+`eraseKeep`, every residue it denotes is removed by the composed cuts -/
+theorem composeDel_none_of_dropped (ss : List Seg) (f : Feature) (hw : wf f.loc = true)
+    (hk2 : delAbs ss f.loc = false) (hd : eraseKeep ss f = false) :
+    ∀ p ∈ Loc.den f.loc, composeDel ss p.1 = none := by
+  induction ss with
+  | nil => simp [eraseKeep] at hd
+  | cons a ss ih =>
+    simp only [delAbs, Bool.or_eq_false_iff] at hk2
+    intro p hp
+    simp only [composeDel]
+    cases hz : composeDel ss p.1 with
+    | none => rfl
+    | some z =>
+      rw [Option.bind_some]
+      have hkeep : eraseKeep ss f = true := by
+        cases h : eraseKeep ss f with
+        | true => rfl
+        | false => rw [ih hk2.1 h p hp] at hz; cases hz
+      simp only [eraseKeep, hkeep, Bool.true_and, Bool.or_eq_false_iff, Bool.not_eq_false'] at hd
+      have hden := (delLoc_den ss f.loc hw).1 hk2.1
+      have hmem : (z, p.2) ∈ Loc.den (delLoc ss f.loc) := by
+        apply hden.2
+        unfold filterMapPos
+        rw [List.mem_filterMap]
+        exact ⟨p, hp, by simp [hz]⟩
+      have hr := den_of_within _ _ _ (delLoc_den ss f.loc hw).2
+        (by have := gabs_nonneg (a.2 - a.1); omega) hd.2 _ hmem
+      unfold delMap
+      rw [if_neg (by simp only at hr; omega), if_pos (by simp only at hr; omega)]
+
+theorem eraseKeep_append (pre l : List Seg) (f : Feature) (h : eraseKeep (pre ++ l) f = true) :
+    eraseKeep l f = true := by
+  induction pre with
+  | nil => exact h
+  | cons a pre ih =>
+    simp only [List.cons_append, eraseKeep, Bool.and_eq_true] at h
+    exact ih h.1
+
+/-- cuts strictly to the right of a range leave it untouched -/
+theorem delLoc_ranged_left (ss : List Seg) (s e : Int) (p5 p3 : Bool) (hse : s < e)
+    (h : ∀ b ∈ ss, e < b.1) : delLoc ss (ranged s e p5 p3) = ranged s e p5 p3 := by
+  induction ss with
+  | nil => rfl
+  | cons b ss ih =>
+    have hb := h b (List.mem_cons_self ..)
+    have hg := gabs_nonneg (b.2 - b.1)
+    simp only [delLoc]
+    rw [ih (fun c hc => h c (List.mem_cons_of_mem _ hc))]
+    simp only [expand, rangedExpand]
+    by_cases h0 : -Reg.gabs (b.2 - b.1) = 0
+    · rw [if_pos h0]
+    · have c1 : ¬ (-Reg.gabs (b.2 - b.1) < 0 ∧ b.1 ≤ s ∧ s < b.1 - -Reg.gabs (b.2 - b.1)) := by omega
+      have c2 : ¬ (-Reg.gabs (b.2 - b.1) < 0 ∧ b.1 < e ∧ e ≤ b.1 - -Reg.gabs (b.2 - b.1)) := by omega
+      have c3 : ¬ ((0 ≤ -Reg.gabs (b.2 - b.1) ∧ b.1 ≤ s) ∨ (-Reg.gabs (b.2 - b.1) < 0 ∧ b.1 < s)) := by omega
+      have c4 : ¬ ((0 ≤ -Reg.gabs (b.2 - b.1) ∧ b.1 < e) ∨ (-Reg.gabs (b.2 - b.1) < 0 ∧ b.1 ≤ e)) := by omega
+      have c5 : s ≠ e := by omega
+      simp only [h0, c1, c2, c3, c4, c5, if_false]
+
+/-- **`gts delete -e` drops a plain range lying within one cut**: the cuts to the right leave it
+untouched, so at that cut `LocationWithin` holds -/
+theorem eraseKeep_false_of_ranged_within (pre : List Seg) (a : Seg) (post : List Seg) (f : Feature)
+    (s e : Int) (p5 p3 : Bool) (hloc : f.loc = ranged s e p5 p3) (hse : s < e)
+    (hns : f.key ≠ "source") (ha : a.1 ≤ s ∧ e ≤ a.2) (hpost : ∀ b ∈ post, e < b.1) :
+    eraseKeep (pre ++ a :: post) f = false := by
+  cases h : eraseKeep (pre ++ a :: post) f with
+  | false => rfl
+  | true =>
+    have h2 := eraseKeep_append pre (a :: post) f h
+    simp only [eraseKeep, Bool.and_eq_true, Bool.or_eq_true, decide_eq_true_eq,
+      Bool.not_eq_true'] at h2
+    rcases h2.2 with h3 | h3
+    · exact absurd h3 hns
+    · rw [hloc, delLoc_ranged_left post s e p5 p3 hse hpost] at h3
+      have eg : Reg.gabs (a.2 - a.1) = a.2 - a.1 := by unfold Reg.gabs; split <;> omega
+      simp only [Loc.within, rangeWithin, eg] at h3
+      rw [if_neg (by omega), if_neg (by omega)] at h3
+      simp only [Bool.and_eq_false_iff, decide_eq_false_iff_not] at h3
+      omega
+
+/-! ## the offset of `unionDelMap` counts the covered positions below -/
+
+theorem countP_or_disjoint {α} (p q : α → Bool) (l : List α) (h : ∀ k ∈ l, ¬ (p k = true ∧ q k = true)) :
+    l.countP (fun k => p k || q k) = l.countP p + l.countP q := by
+  induction l with
+  | nil => rfl
+  | cons a l ih =>
+    have ha := h a (List.mem_cons_self ..)
+    have := ih (fun k hk => h k (List.mem_cons_of_mem _ hk))
+    simp only [List.countP_cons, this]
+    cases hp : p a <;> cases hq : q a <;> simp_all <;> omega
+
+theorem countP_range_interval (a b n : Nat) (hab : a ≤ b) :
+    (List.range n).countP (fun k => decide (a ≤ k ∧ k < b)) = min b n - min a n := by
+  induction n with
+  | zero => simp
+  | succ n ih =>
+    rw [List.range_succ, List.countP_append, ih, List.countP_singleton]
+    by_cases h : a ≤ n ∧ n < b
+    · rw [if_pos (by simpa using h)]; omega
+    · rw [if_neg (by simpa using h)]; omega
+
+/-- **the offset of `unionDelMap` is the number of covered positions below `x`**: for forward,
+increasing, disjoint segments at non-negative positions and an uncovered `x ≥ 0` -/
+theorem delOffset_eq_count (ss : List Seg) (hf : Fwd ss) (hp : ss.Pairwise (fun a b => a.2 ≤ b.1))
+    (h0 : ∀ o ∈ ss, 0 ≤ o.1) (x : Int) (hx : 0 ≤ x) (hc : ¬ segsCover ss x) :
+    delOffset ss x = ((List.range x.toNat).countP (covB ss) : Nat) := by
+  induction ss with
+  | nil =>
+    have : (List.range x.toNat).countP (covB []) = 0 := by
+      rw [List.countP_eq_zero]
+      intro k _
+      simp [covB]
+    rw [this]; rfl
+  | cons a ss ih =>
+    have ha := hf a (List.mem_cons_self ..)
+    have ha0 := h0 a (List.mem_cons_self ..)
+    have hpp := List.pairwise_cons.mp hp
+    rw [segsCover_cons] at hc
+    have hc1 : ¬ (a.1 ≤ x ∧ x < a.2) := fun h => hc (Or.inl h)
+    have hc2 : ¬ segsCover ss x := fun h => hc (Or.inr h)
+    have ih' := ih (fun o ho => hf o (List.mem_cons_of_mem _ ho)) hpp.2
+      (fun o ho => h0 o (List.mem_cons_of_mem _ ho)) hc2
+    have e : covB (a :: ss) = fun k => decide (a.1.toNat ≤ k ∧ k < a.2.toNat) || covB ss k := by
+      funext k
+      simp only [covB, segsCover_cons]
+      rw [Bool.decide_or]
+      congr 1
+      apply decide_eq_decide.mpr
+      constructor <;> intro h <;> omega
+    rw [e, countP_or_disjoint, countP_range_interval _ _ _ (by omega)]
+    · simp only [delOffset]
+      rw [ih']
+      split <;> omega
+    · intro k _ ⟨h1, h2⟩
+      simp only [decide_eq_true_eq] at h1
+      simp only [covB, decide_eq_true_eq] at h2
+      obtain ⟨b, hb, hb1, _⟩ := h2
+      have := hpp.1 b hb
+      omega
 end Gts.Cli
